@@ -17,7 +17,9 @@ EDITS = {
     "prec_or_and_swapped": ("libyara/grammar.y", "%left '|'\n%left '^'\n%left '&'\n", "%left '&'\n%left '^'\n%left '|'\n", None),
     "count_in_upper_exclusive": ("libyara/exec.c", "match->base + match->offset <= r2.i)\n        {\n          r4.i++;", "match->base + match->offset < r2.i)\n        {\n          r4.i++;", None),
     "empty_loop_all_true": ("libyara/exec.c", "      if (r4.i == 0)\n      {\n        r1.i = 0;\n      }", "      if (r4.i == 0)\n      {\n        r1.i = is_undef(r2) ? 1 : 0;\n      }", None),
-    "percent_strict": ("libyara/exec.c", "r1.i = (((double) found / count) * 100) >= r2.i ? 1 : 0;", "r1.i = (((double) found / count) * 100) > r2.i ? 1 : 0;", None),
+    "percent_strict": ("libyara/exec.c", "r1.i = (((int64_t) found * 100) / count) >= r2.i ? 1 : 0;", "r1.i = (((int64_t) found * 100) / count) > r2.i ? 1 : 0;", None),
+    "percent_double_again": ("libyara/exec.c", "r1.i = (((int64_t) found * 100) / count) >= r2.i ? 1 : 0;", "r1.i = (((double) found / count) * 100) >= r2.i ? 1 : 0;", None),
+    "percent_ceil": ("libyara/exec.c", "r1.i = (((int64_t) found * 100) / count) >= r2.i ? 1 : 0;", "r1.i = (((int64_t) found * 100 + count - 1) / count) >= r2.i ? 1 : 0;", None),
     "found_at_ge": ("libyara/exec.c", "        if (r1.i == match->base + match->offset)\n        {\n          r3.i = true;", "        if (r1.i <= match->base + match->offset)\n        {\n          r3.i = true;", None),
     "and_undef_true": ("libyara/exec.c", "      if (is_undef(r2))\n        r2.i = 0;\n\n      r1.i = r1.i && r2.i;", "      if (is_undef(r2))\n        r2.i = 1;\n\n      r1.i = r1.i && r2.i;", None),
     "int_le_as_lt": ("libyara/exec.c", "r1.i = r1.i <= r2.i;", "r1.i = r1.i < r2.i;", None),
@@ -60,7 +62,7 @@ EDITS = {
     "index_array_off_by_one": ("libyara/exec.c", "      r1.o = yr_object_array_get_item(r2.o, 0, (int) r1.i);", "      r1.o = yr_object_array_get_item(r2.o, 0, (int) r1.i + (r1.i > 1));", None),
     "lookup_dict_undef_key": ("libyara/exec.c", "      pop(r1);  // key\n      pop(r2);  // dictionary\n\n      ensure_defined(r1);", "      pop(r1);  // key\n      pop(r2);  // dictionary\n\n      if (is_undef(r1)) r1.ss = NULL;", None),
     "str_to_bool_nonempty": ("libyara/exec.c", "      r1.i = r1.ss->length > 0;", "      r1.i = r1.ss->length >= 0;", None),
-    "of_percent_undef_q": ("libyara/exec.c", "        r1.i = (((double) found / count) * 100) >= r2.i ? 1 : 0;", "        r1.i = (((double) found / count) * 100) >= (r2.i & 0xff) ? 1 : 0;", None),
+    "of_percent_undef_q": ("libyara/exec.c", "r1.i = (((int64_t) found * 100) / count) >= r2.i ? 1 : 0;", "r1.i = (((int64_t) found * 100) / count) >= (r2.i & 0xff) ? 1 : 0;", None),
     "matches_nocase_lost": ("libyara/exec.c", "          r2.re->flags | RE_FLAGS_SCAN,", "          RE_FLAGS_SCAN,", None),
     "iter_array_skips_last": ("libyara/exec.c", "  if (self->array_it.index >= yr_object_array_length(self->array_it.array))", "  if (self->array_it.index + 1 >= yr_object_array_length(self->array_it.array))", None),
     "entrypoint_zero": ("libyara/exec.c", "      r1.i = context->entry_point;", "      r1.i = context->entry_point == YR_UNDEFINED ? 0 : context->entry_point;", None),
